@@ -75,6 +75,27 @@ NewPartner ==
                /\ hist' = Append(hist, [op |-> "new", out |-> <<Fresh>>, desc |-> d, partner_of |-> r, axes |-> axs])
                /\ bad' = {}
 
+\* a second array over the same indices and charge (for the elementwise binary operations)
+NewSibling ==
+  /\ "arith" \in OpSet /\ Cardinality(Regs) = 1 /\ Len(hist) < MaxDepth
+  /\ \E r \in Regs :
+       LET ixs == [i \in 1..Rank(reg[r]) |-> [dual |-> reg[r].ix[i].dual, cm |-> reg[r].ix[i].cm]]
+       IN \E d \in Descs(ixs, 21, 3) :
+            /\ d.charge = reg[r].charge
+            /\ d.drop \subseteq 0..(NSectors(ixs, d.charge) - 1)
+            /\ reg' = reg @@ (Fresh :> Build(d))
+            /\ hist' = Append(hist, [op |-> "new", out |-> <<Fresh>>, desc |-> d, sibling_of |-> r])
+            /\ bad' = {}
+\* a block vector over (all, or all but the first, of) the charges of one axis of r
+NewVector ==
+  /\ "diag" \in OpSet /\ Cardinality(Regs) = 1 /\ Len(hist) < MaxDepth
+  /\ \E r \in Regs : \E ax \in 1..Rank(reg[r]) : \E skip \in 0..1 :
+       LET cm == reg[r].ix[ax].cm
+           vd == [blocks |-> SubSeq(cm, 1 + skip, Len(cm)), start |-> 31]
+       IN /\ reg' = reg @@ (Fresh :> BuildVector(vd))
+          /\ hist' = Append(hist, [op |-> "new", out |-> <<Fresh>>, vdesc |-> vd, vector_for |-> r, axis |-> ax])
+          /\ bad' = {}
+
 \* apply a public operation: the result is the implementation-shaped prediction
 Apply(st) ==
   LET ev0 == Ev(st, reg)
@@ -84,6 +105,15 @@ Apply(st) ==
         /\ reg' = post
         /\ hist' = Append(hist, st)
         /\ bad' = EventFails(Ev(st, post), reg)
+
+\* operations returning a number / a dense array: the value is given by the implementation-shaped operators
+ApplyValue(st, val) ==
+  LET post == (st.out[1] :> val) @@ reg IN
+  /\ reg' = post
+  /\ hist' = Append(hist, st)
+  /\ bad' = EventFails(Ev(st, post), reg)
+ScalarRec(v) == [t |-> "scalar", v |-> v, exact |-> TRUE, dt |-> "float64"]
+Synced(x) == IF IsFermi(x) THEN IPhaseSync(x) ELSE x
 
 Perms(n) == {p \in [1..n -> 1..n] : \A i, j \in 1..n : i # j => p[i] # p[j]}
 ZeroBased(seq) == [i \in 1..Len(seq) |-> seq[i] - 1]
@@ -126,12 +156,57 @@ OpPhase ==
      \/ \E ax \in 1..Rank(reg[r]) : Apply(Step("phase_flip", [axs |-> <<ax - 1>>], <<r>>, <<Fresh>>, "method"))
      \/ \E p \in Perms(Rank(reg[r])) : Apply(Step("phase_transpose", [axes |-> ZeroBased(p)], <<r>>, <<Fresh>>, "method"))
 
+OpArith ==
+  "arith" \in OpSet /\
+    \/ \E r \in Arrays :
+         \/ Apply(Step("neg", [x |-> 0], <<r>>, <<Fresh>>, "method"))
+         \/ Apply(Step("smul", [k |-> <<2, 0>>], <<r>>, <<Fresh>>, "method"))
+         \/ Apply(Step("rsmul", [k |-> <<-1, 0>>], <<r>>, <<Fresh>>, "method"))
+         \/ Apply(Step("sync_charges", [x |-> 0], <<r>>, <<Fresh>>, "method"))
+         \/ Apply(Step("fill_missing_blocks", [x |-> 0], <<r>>, <<r>>, "method"))
+    \/ \E a, b \in Arrays : a # b /\ \E op \in {"add", "sub", "mul"} :
+         Apply(Step(op, [x |-> 0], <<a, b>>, <<Fresh>>, "method"))
+    \/ \E a, b \in Arrays : a # b /\ \E op \in {"iadd", "isub", "imul"} :
+         Apply(Step(op, [x |-> 0], <<a, b>>, <<a>>, "method"))
+OpDiag ==
+  "diag" \in OpSet /\ \E i \in 1..Len(hist) :
+     /\ hist[i].op = "new" /\ "vector_for" \in DOMAIN hist[i]
+     /\ \E r \in Arrays : \E ax \in 1..Rank(reg[r]) :
+          Apply(Step("multiply_diagonal", [axis |-> ax - 1], <<r, hist[i].out[1]>>, <<Fresh>>, "method"))
+OpReduce ==
+  "reduce" \in OpSet /\ \E r \in Arrays : reg[r].blocks # <<>> /\
+     \/ ApplyValue(Step("sum", [x |-> 0], <<r>>, <<Fresh>>, "method"), ScalarRec(ISum(Synced(reg[r]))))
+     \/ ApplyValue(Step("norm_sq", [x |-> 0], <<r>>, <<Fresh>>, "method"), ScalarRec(<<INorm2(Synced(reg[r])), 0>>))
+     \/ (Rank(reg[r]) > 0 /\
+           LET d == IToDense(Synced(reg[r])) IN
+           ApplyValue(Step("to_dense", [x |-> 0], <<r>>, <<Fresh>>, "method"),
+                      [t |-> "dense", shape |-> d.shape, data |-> d.data, exact |-> TRUE, dt |-> "float64"]))
+     \/ (Rank(reg[r]) = 2 /\ Contractible(reg[r], reg[r], <<1>>, <<2>>) /\
+           ApplyValue(Step("trace", [x |-> 0], <<r>>, <<Fresh>>, "method"),
+                      ScalarRec(IF IsFermi(reg[r]) THEN IFTrace(reg[r]) ELSE ITrace(reg[r]))))
+
+\* single-array einsum: a permutation, or one traced pair of conjugate axes followed by a permutation of the rest
+OpEinsum ==
+  "einsum" \in OpSet /\ \E r \in Arrays :
+    LET n == Rank(reg[r]) IN
+    \/ (n >= 1 /\ \E p \in Perms(n) :
+           Apply(Step("einsum", [lhs |-> [i \in 1..n |-> i], rhs |-> p, preserve_array |-> TRUE], <<r>>, <<Fresh>>, "method")))
+    \/ \E i, j \in 1..n : i < j /\ Contractible(reg[r], reg[r], <<i>>, <<j>>) /\
+          LET lhs == [k \in 1..n |-> IF k < j THEN k ELSE IF k = j THEN i ELSE k - 1]
+              kept == SetToSortSeq((1..(n - 1)) \ {i}, <)
+          IN \E p \in Perms(Len(kept)) :
+               Apply(Step("einsum", [lhs |-> lhs, rhs |-> [k \in 1..Len(kept) |-> kept[p[k]]], preserve_array |-> TRUE],
+                          <<r>>, <<Fresh>>, "method"))
+
 Init == reg = <<>> /\ hist = <<>> /\ bad = {}
 Next ==
   \/ New
   \/ NewPartner
+  \/ NewSibling
+  \/ NewVector
   \/ (Cardinality(Regs) >= 1 /\ Len(hist) < MaxDepth /\
-        (OpTranspose \/ OpConj \/ OpExpand \/ OpSqueeze \/ OpFuse \/ OpUnfuse \/ OpTensordot \/ OpPhase))
+        (OpTranspose \/ OpConj \/ OpExpand \/ OpSqueeze \/ OpFuse \/ OpUnfuse \/ OpTensordot \/ OpPhase
+         \/ OpArith \/ OpDiag \/ OpReduce \/ OpEinsum))
 Spec == Init /\ [][Next]_vars
 
 \* Impl |= Props : no transition fails any property clause
@@ -146,7 +221,21 @@ HashDesc(d) == SumInts([i \in 1..Len(d.ix) |-> (IF d.ix[i].dual THEN 7 ELSE 3) *
                + (IF 0 \in d.drop THEN 23 ELSE 0)
 HashSeq(q) == SumInts([i \in 1..Len(q) |-> (i + 1) * (q[i] + 1)])
 HashStep(st) ==
-  CASE st.op = "new" -> HashDesc(st.desc)
+  CASE st.op = "new" /\ "vdesc" \in DOMAIN st -> 71 + 3 * Len(st.vdesc.blocks) + st.axis
+    [] st.op = "new" -> HashDesc(st.desc)
+    [] st.op \in {"add", "sub", "mul", "iadd", "isub", "imul"} ->
+         (CASE st.op = "add" -> 73 [] st.op = "sub" -> 79 [] st.op = "mul" -> 83 [] st.op = "iadd" -> 89 [] st.op = "isub" -> 97 [] OTHER -> 101)
+         + (IF st.in[1] = "r1" THEN 1 ELSE 0)
+    [] st.op = "multiply_diagonal" -> 103 + st.args.axis
+    [] st.op \in {"smul", "rsmul"} -> 107 + st.args.k[1]
+    [] st.op = "neg" -> 109
+    [] st.op = "einsum" -> 151 + HashSeq(st.args.lhs) + 3 * HashSeq(st.args.rhs)
+    [] st.op = "sum" -> 113
+    [] st.op = "norm_sq" -> 127
+    [] st.op = "to_dense" -> 131
+    [] st.op = "trace" -> 137
+    [] st.op = "sync_charges" -> 139
+    [] st.op = "fill_missing_blocks" -> 149
     [] st.op = "tensordot" -> 31 + HashSeq(st.args.axes[1]) + (CASE st.args.mode = "fused" -> 1 [] st.args.mode = "blockwise" -> 2 [] OTHER -> 3)
     [] st.op \in {"transpose", "phase_transpose"} -> 37 + HashSeq(st.args.axes)
     [] st.op = "fuse" -> 41 + SumInts([g \in 1..Len(st.args.groups) |-> (g + 2) * HashSeq(st.args.groups[g])])
